@@ -183,9 +183,9 @@ func (e *caseEval) cases(v ssa.Value, d int) []vcase {
 		switch {
 		case com.StaticCallee() != nil:
 			f := com.StaticCallee()
-			name = f.Name()
+			name = fname(f)
 			if !e.p.InModule(f) {
-				name = pkgOfFunc(f).Pkg.Name() + "." + f.Name()
+				name = pkgOfFunc(f).Pkg.Name() + "." + fname(f)
 			}
 			if f.String() == "fmt.Sprintf" {
 				if s, ok := e.sprintfCases(x, d); ok {
@@ -547,11 +547,11 @@ func inlinable(f *ssa.Function) bool {
 	if recvTypeName(f) == "Node" || recvTypeName(f) == "WalkerNode" {
 		return false
 	}
-	switch f.Name() {
+	switch fname(f) {
 	case "colorize", "summary", "spreadBranch", "isFile", "current", "next":
 		return false
 	}
-	if f.Parent() == nil && strings.HasPrefix(f.Name(), "new") {
+	if f.Parent() == nil && strings.HasPrefix(fname(f), "new") {
 		return false
 	}
 	return true
